@@ -545,6 +545,20 @@ def gen_jobs(ctx):
             r = gen(rng, i)
             if r is not None:
                 cases.append((fam, r[0], r[1], r[2]))
+    # reduce/reduce conflicts settled by production priorities, the two completed items having different
+    # lookahead sets: every lookahead of the winner keeps its REDUCE whatever order the sets are walked in
+    for i in range(8 if quick else 60):
+        las = rng.sample(["'x'", "'y'", "'z'", "'w'", "'v'", "'u'"], rng.randint(3, 6))
+        shared = rng.sample(las, rng.randint(1, 2))
+        pa, pb = sorted(rng.sample([3, 5, 8, 12, 15], 2))        # A, with the larger lookahead set, loses
+        alts = ["A %s" % t for t in las] + ["B %s" % t for t in shared]
+        if i % 4 >= 2:
+            rng.shuffle(alts)
+        rules = ["A: 'a' {%d}" % pa, "B: 'a' {%d}" % pb]
+        if i % 2:
+            rules.reverse()
+        text = "S: %s;\n%s;" % (" | ".join(alts), ";\n".join(rules))
+        cases.append(("rrprio", "rrprio%d" % i, text, ["a " + t.strip("'") for t in las] + ["a", "a a"]))
     # consume_input off: one parse accepts several sentence prefixes (several accepted heads whose
     # root links are folded into one forest root): the order of the forest's trees must not depend
     # on the process either
